@@ -492,7 +492,10 @@ def r5_index(prog, rep: Report, fam: Family):
                 def is_tell(e):
                     return isinstance(e, ast.Call) and isinstance(e.func, ast.Attribute) and e.func.attr == "tell" \
                         and isinstance(e.func.value, ast.Name) and e.func.value.id == handle_var and not e.args
-                if defs_ and all(is_tell(a.value) for a in defs_):
+                in_loop_ = [a for a in defs_ if any(x is a for x in ast.walk(n))]
+                out_loop_ = [a for a in defs_ if a not in in_loop_]
+                # the first start is the position of the freshly opened file: h.tell() or the literal 0
+                if defs_ and all(is_tell(a.value) for a in in_loop_) and all(is_tell(a.value) or const_value(a.value, None) == 0 for a in out_loop_):
                     scheme_b = (n, appends[0], defs_)
             head = n.test if isinstance(n, ast.While) else n.iter
             reads_line = any(isinstance(c, ast.Call) and isinstance(c.func, ast.Attribute) and c.func.attr == "readline"
